@@ -324,7 +324,18 @@ pub fn inputs_c12(r: &mut Rng, n: usize, _tier: &str, out: &mut dyn Write) {
             _ => epoch_total(r, b),
         }
         .clamp(DMIN, DMAX);
-        let (es, fs) = (format!("{}:{}", dstr(e), a), format!("{}:{}", dstr(f), b));
+        let (mut es, mut fs) = (format!("{}:{}", dstr(e), a), format!("{}:{}", dstr(f), b));
+        if r.chance(1, 8) {
+            // a leap-free-scale instant INSIDE an inserted second against the UTC counts around it
+            let leaps = leap_ts();
+            let (t, d) = *r.pick(&leaps);
+            let x = match r.below(3) { 0 => 0, 1 => 500_000_000, _ => r.below(SEC as u64) as i128 };
+            let i = (t + d - 1) * SEC + x; // TAI instant inside the inserted second
+            let sc = *r.pick(&UNIFORM);
+            let u = i - d * SEC + SEC * r.range_i64(-1, 1) as i128;
+            let (l, rr) = (format!("{}:{}", dstr(i - ref_off(sc)), sc), format!("{}:UTC", dstr(u)));
+            if r.chance(1, 2) { es = l; fs = rr; } else { es = rr; fs = l; }
+        }
         match r.below(10) {
             0 | 1 | 2 => writeln!(out, "eeq {} {}", es, fs).unwrap(),
             3 | 4 | 5 => writeln!(out, "ecmp {} {}", es, fs).unwrap(),
